@@ -350,6 +350,16 @@ func (w *World) RandomTx(v *View, height uint64, inBlock []*wire.MsgTx) *wire.Ms
 	if len(outs) == 0 {
 		return nil
 	}
+	// now and then an output of a script class the wallet does not support (a data carrier) sits
+	// somewhere among the outputs - before or after the ones that pay a wallet
+	if w.R.Chance(6) {
+		carrier := wire.NewTxOut(0, append([]byte{0x6a, 0x04}, w.R.Bytes(4)...))
+		at := w.R.Intn(len(outs) + 1)
+		outs = append(outs[:at], append([]*wire.TxOut{carrier}, outs[at:]...)...)
+		if w.T != nil {
+			w.T.Count("transactions_with_an_unsupported_output", 1)
+		}
+	}
 	tx := Spend(ops, nil, outs, w.nextSalt())
 	if hasBindingInAndOut(v, tx) {
 		return nil // consensus forbids binding input + binding output; the wallet rejects it too
